@@ -95,6 +95,7 @@ def enable_production_coverage(on=True):
 def _instrument(parser):
     prods = parser.yacc.productions
     _COV["total"] = len(prods)
+    _COV["all"] = [p.str for p in prods]
     for prod in prods:
         f = prod.callable
         if f is None or getattr(f, "_sdpv_cov", False):
